@@ -36,7 +36,7 @@
    ====================================================================================== *)
 From Coq Require Import List ZArith NArith String Bool Lia.
 From SCC Require Import Base.Sexp Lang.SynUtil Lang.FunSyn Lang.FunTy Lang.CoreSyn.
-From SCC Require Import Sem.AxSem Sem.CoreSem Sem.FunSem Model.Fun2Core Proof.Fun2CoreProof Proof.Fun2CoreSim.
+From SCC Require Import Sem.AxSem Sem.CoreSem Sem.FunSem Model.Fun2Core Model.Fun2CoreGuard Proof.Fun2CoreProof Proof.Fun2CoreSim.
 Import ListNotations.
 Open Scope string_scope.
 Open Scope list_scope.
@@ -82,6 +82,10 @@ Proof.
 Qed.
 Lemma dfield_dbv : forall b, dfield b -> dbv b.
 Proof. intros [v|k] H; simpl in *; [exact H | exact I]. Qed.
+
+(* codata values; the kind of a value *)
+Definition cval (v : fval) : Prop := match v with FvNew _ _ | FvThunk _ _ => True | _ => False end.
+Definition vkind (c : bool) (v : fval) : Prop := if c then cval v else dval v.
 
 Section Rel.
   Variable p : fcprog.
@@ -196,33 +200,39 @@ Section Rel.
   Qed.
 
   (* ---------- the step-indexed behavioural parts ---------- *)
-  Definition kb_step (K : fkont -> kval -> Prop) (C : fval -> pval -> Prop) (j : nat) (k : fkont) (kv : kval) : Prop :=
-    forall v pv, dval v -> vrel_s K C v pv -> sim j (FRet k v) (interact_val pv kv).
-  Definition co_step (K : fkont -> kval -> Prop) (C : fval -> pval -> Prop) (j : nat) (v : fval) (pv : pval) : Prop :=
+  (* continuations are indexed by the KIND of the values they expect: data (false) or codata (true) *)
+  Definition kb_step (K : bool -> fkont -> kval -> Prop) (C : fval -> pval -> Prop) (j : nat) (c : bool)
+             (k : fkont) (kv : kval) : Prop :=
+    forall v pv, vkind c v -> vrel_s (K false) C v pv -> sim j (FRet k v) (interact_val pv kv).
+  (* destructor arguments are data values; the continuation has the kind the destructor returns *)
+  Definition co_step (K : bool -> fkont -> kval -> Prop) (C : fval -> pval -> Prop) (j : nat) (v : fval) (pv : pval) : Prop :=
     forall x args args' k kv,
-      Forall2 (brel_s K C) args args' -> K k kv ->
-      sim j (FRet (FkDtor x args k) v) (interact_val pv (KDtor (new_id x) (args' ++ [BK kv]))).
+      Forall2 (brel_s (K false) C) args args' -> Forall dfield args -> K (dkind p x) k kv ->
+      sim (S j) (FRet (FkDtor x args k) v) (interact_val pv (KDtor (new_id x) (args' ++ [BK kv]))).
 
-  Fixpoint Kb (n : nat) : fkont -> kval -> Prop :=
+  Fixpoint Kk (n : nat) : bool -> fkont -> kval -> Prop :=
     match n with
-    | O => fun _ _ => True
-    | S j => fun k kv => Kb j k kv /\ kb_step (Kb j) (Co j) j k kv
+    | O => fun _ _ _ => True
+    | S j => fun c k kv => Kk j c k kv /\ kb_step (Kk j) (Co j) j c k kv
     end
   with Co (n : nat) : fval -> pval -> Prop :=
     match n with
     | O => fun _ _ => True
-    | S j => fun v pv => Co j v pv /\ co_step (Kb j) (Co j) j v pv
+    | S j => fun v pv => Co j v pv /\ co_step (Kk j) (Co j) j v pv
     end.
+  Definition Kb (n : nat) : fkont -> kval -> Prop := Kk n false.
 
   Definition vrel (n : nat) : fval -> pval -> Prop := vrel_s (Kb n) (Co n).
   Definition brel (n : nat) : fbv -> bval -> Prop := brel_s (Kb n) (Co n).
 
-  Lemma Kb_mono : forall n n' k kv, Kb n k kv -> (n' <= n)%nat -> Kb n' k kv.
+  Lemma Kk_mono : forall n n' c k kv, Kk n c k kv -> (n' <= n)%nat -> Kk n' c k kv.
   Proof.
-    induction n as [|n IH]; intros n' k kv H Hle.
+    induction n as [|n IH]; intros n' c k kv H Hle.
     - assert (n' = 0)%nat by lia. subst. exact I.
     - destruct (Nat.eq_dec n' (S n)) as [->|Hne]; [exact H|]. apply IH; [exact (proj1 H) | lia].
   Qed.
+  Lemma Kb_mono : forall n n' k kv, Kb n k kv -> (n' <= n)%nat -> Kb n' k kv.
+  Proof. intros n n' k kv. apply Kk_mono. Qed.
   Lemma Co_mono : forall n n' v pv, Co n v pv -> (n' <= n)%nat -> Co n' v pv.
   Proof.
     induction n as [|n IH]; intros n' v pv H Hle.
@@ -245,21 +255,63 @@ Section Rel.
   Proof. intros n n' l l' H Hle. induction H; constructor; auto. eapply brel_mono; eauto. Qed.
 
   (* using a related continuation: every smaller index *)
-  Lemma Kb_use : forall n k kv, Kb n k kv -> forall j, (j < n)%nat ->
-    forall v pv, dval v -> vrel j v pv -> sim j (FRet k v) (interact_val pv kv).
+  Lemma Kk_use : forall n c k kv, Kk n c k kv -> forall j, (j < n)%nat ->
+    forall v pv, vkind c v -> vrel j v pv -> sim j (FRet k v) (interact_val pv kv).
   Proof.
-    intros n k kv H j Hlt v pv Hd Hv.
-    assert (HS : Kb (S j) k kv) by (eapply Kb_mono; [exact H | lia]).
+    intros n c k kv H j Hlt v pv Hd Hv.
+    assert (HS : Kk (S j) c k kv) by (eapply Kk_mono; [exact H | lia]).
     exact (proj2 HS v pv Hd Hv).
   Qed.
+  Lemma Kb_use : forall n k kv, Kb n k kv -> forall j, (j < n)%nat ->
+    forall v pv, dval v -> vrel j v pv -> sim j (FRet k v) (interact_val pv kv).
+  Proof. intros n k kv H j Hlt v pv Hd Hv. eapply (Kk_use n false); eauto. Qed.
   (* establishing one *)
+  Lemma Kk_intro : forall n c k kv,
+    (forall j, (j < n)%nat -> forall v pv, vkind c v -> vrel j v pv -> sim j (FRet k v) (interact_val pv kv)) ->
+    Kk n c k kv.
+  Proof.
+    induction n as [|n IH]; intros c k kv H; [exact I|]. split.
+    - apply IH. intros j Hj. apply H. lia.
+    - intros v pv Hd Hv. apply (H n); [lia | exact Hd | exact Hv].
+  Qed.
   Lemma Kb_intro : forall n k kv,
     (forall j, (j < n)%nat -> forall v pv, dval v -> vrel j v pv -> sim j (FRet k v) (interact_val pv kv)) ->
     Kb n k kv.
+  Proof. intros n k kv H. apply (Kk_intro n false). exact H. Qed.
+
+  (* codata values: established and used through their behaviour under destructors (the source
+     machine takes at least one step at a destructor frame, hence the index S j) *)
+  Lemma Co_intro : forall n v pv,
+    (forall j, (j < n)%nat -> forall x args args' k kv,
+       Forall2 (brel j) args args' -> Forall dfield args -> Kk j (dkind p x) k kv ->
+       sim (S j) (FRet (FkDtor x args k) v) (interact_val pv (KDtor (new_id x) (args' ++ [BK kv])))) ->
+    Co n v pv.
   Proof.
-    induction n as [|n IH]; intros k kv H; [exact I|]. split.
+    induction n as [|n IH]; intros v pv H; [exact I|]. split.
     - apply IH. intros j Hj. apply H. lia.
-    - intros v pv Hd Hv. apply (H n); [lia | exact Hd | exact Hv].
+    - intros x args args' k kv Ha Hd Hk. apply (H n); [lia | exact Ha | exact Hd | exact Hk].
+  Qed.
+  Lemma Co_use : forall n v pv, Co n v pv -> forall j, (j < n)%nat -> forall x args args' k kv,
+    Forall2 (brel j) args args' -> Forall dfield args -> Kk j (dkind p x) k kv ->
+    sim (S j) (FRet (FkDtor x args k) v) (interact_val pv (KDtor (new_id x) (args' ++ [BK kv]))).
+  Proof.
+    intros n v pv H j Hlt x args args' k kv Ha Hd Hk.
+    assert (HS : Co (S j) v pv) by (eapply Co_mono; [exact H | lia]).
+    exact (proj2 HS x args args' k kv Ha Hd Hk).
+  Qed.
+  (* a destructor frame is a continuation for codata values *)
+  Lemma Kk_dtor : forall n x args args' k kv,
+    Forall2 (brel n) args args' -> Forall dfield args -> Kk n (dkind p x) k kv ->
+    Kk n true (FkDtor x args k) (KDtor (new_id x) (args' ++ [BK kv])).
+  Proof.
+    intros n x args args' k kv Ha Hd Hk. apply Kk_intro. intros j Hj v pv Hc Hv.
+    assert (HCo : Co j v pv).
+    { destruct v as [z|tag fs|cls e|t e]; simpl in Hc; try contradiction; exact Hv. }
+    destruct j as [|j1]; [apply sim_zero|].
+    apply (Co_use (S j1) v pv HCo j1 (Nat.lt_succ_diag_r j1)).
+    - eapply brels_mono; [exact Ha | lia].
+    - exact Hd.
+    - eapply Kk_mono; [exact Hk | lia].
   Qed.
 
   (* data values and their Core counterparts *)
@@ -268,6 +320,8 @@ Section Rel.
   Lemma vrel_ctor : forall n tag args pv,
     vrel n (FvCtor tag args) pv <-> exists args', pv = PCtor (new_id tag) args' /\ Forall2 (brel n) args args'.
   Proof. intros. unfold vrel, brel. apply vrel_s_ctor. Qed.
+  Lemma vrel_co : forall n v pv, cval v -> (vrel n v pv <-> Co n v pv).
+  Proof. intros n v pv H. destruct v; simpl in H; try contradiction; reflexivity. Qed.
   Lemma brel_P : forall n v b', brel n (FbP v) b' <-> exists pv, b' = BP pv /\ vrel n v pv.
   Proof.
     intros n v b'. destruct b' as [pv|kv]; simpl.
